@@ -7,23 +7,18 @@ From TL Require Import Lib.Base Lib.GenTypes Model.SrpTypes Gen.SrpGen Model.Srp
 (* every flag is off, or the file is outside the defect class of the flag *)
 Definition quirks_ok (q : squirks) (f : sfile) : bool :=
   (negb (q_py_hash_in_string q) || free_py_hash f)
-  && (negb (q_ts_loc_raw_span q) || free_ts_loc f)
   && (negb (q_ts_nonpublic_counted q) || free_ts_nonpublic f)
   && (negb (q_ts_accessor_counted q) || free_ts_accessor f)
-  && (negb (q_ts_abstract_skipped q) || free_ts_abstract f)
-  && (negb (q_rs_trait_first_ident q) || free_rs_trait f)
-  && (negb (q_rs_generic_impl_lost q) || free_rs_generic f)
+  && (negb (q_ts_block_comment_counted q) || free_ts_block f)
   && (negb (q_rs_name_collision q) || free_rs_collision f)
   && (negb (q_rs_block_comment_counted q) || free_rs_block f).
 
 Definition flags_off (q : squirks) : Prop :=
-  q_py_hash_in_string q = false /\ q_ts_loc_raw_span q = false /\ q_ts_nonpublic_counted q = false /\ q_ts_accessor_counted q = false
-  /\ q_ts_abstract_skipped q = false /\ q_rs_trait_first_ident q = false /\ q_rs_generic_impl_lost q = false
-  /\ q_rs_name_collision q = false /\ q_rs_block_comment_counted q = false.
+  q_py_hash_in_string q = false /\ q_ts_nonpublic_counted q = false /\ q_ts_accessor_counted q = false
+  /\ q_ts_block_comment_counted q = false /\ q_rs_name_collision q = false /\ q_rs_block_comment_counted q = false.
 
 Definition defect_free (f : sfile) : bool :=
-  free_py_hash f && free_ts_loc f && free_ts_nonpublic f && free_ts_accessor f && free_ts_abstract f
-  && free_rs_trait f && free_rs_generic f && free_rs_collision f && free_rs_block f.
+  free_py_hash f && free_ts_nonpublic f && free_ts_accessor f && free_ts_block f && free_rs_collision f && free_rs_block f.
 
 Lemma flag_or a b : negb a || b = true -> a = false \/ b = true.
 Proof. destruct a, b; cbn; intros H; try discriminate; tauto. Qed.
@@ -40,8 +35,9 @@ Lemma py_report_spec q s f :
 Proof.
   intros EL Hl Hc Hq. unfold py_report. rewrite filter_const_true by reflexivity.
   apply flat_map_ext_in'. intros c Hin. pose proof (forallb_In _ _ _ Hc Hin) as Hg.
-  unfold cls_good in Hg. apply andb_prop in Hg. destruct Hg as [Hg Hm]. apply andb_prop in Hg. destruct Hg as [_ Hs].
-  unfold py_class_rep, spec_class_rep. rewrite class_rep_py, has_kw_py, EL. cbn [cf_mm cf_ml cf_check cf_keywords spec_conf].
+  unfold cls_good in Hg. apply andb_prop in Hg. destruct Hg as [Hg Hm]. apply andb_prop in Hg. destruct Hg as [Hg Hd].
+  apply andb_prop in Hg. destruct Hg as [_ Hs]. apply Nat.eqb_eq in Hd. rewrite Hd, Nat.sub_0_r in Hs.
+  unfold py_class_rep, spec_class_rep. rewrite class_rep_py, has_kw_py, EL, Hd, Nat.sub_0_r. cbn [cf_mm cf_ml cf_check cf_keywords spec_conf].
   assert (E1 : py_count_methods c = spec_methods (c_members c)).
   { apply filter_length_ext. intros m Hm'. apply py_countable_spec. exact (forallb_In _ _ _ Hm Hm'). }
   assert (E2 : py_count_loc q (f_lines f) c = spec_loc (f_lines f) (c_line c) (c_len c)).
@@ -54,21 +50,18 @@ Qed.
 Lemma ts_report_spec q s f l :
   l = Ts \/ l = Js -> f_lang f = l -> forallb (line_good l) (f_lines f) = true ->
   forallb (cls_good l (List.length (f_lines f))) (f_classes f) = true ->
-  q_ts_loc_raw_span q = false \/ free_ts_loc f = true ->
   q_ts_nonpublic_counted q = false \/ free_ts_nonpublic f = true ->
   q_ts_accessor_counted q = false \/ free_ts_accessor f = true ->
-  q_ts_abstract_skipped q = false \/ free_ts_abstract f = true ->
+  q_ts_block_comment_counted q = false \/ free_ts_block f = true ->
   ts_report q (spec_conf s l) f = flat_map (spec_class_rep s f) (f_classes f).
 Proof.
-  intros Hts EL Hl Hc Q1 Q2 Q3 Q4.
+  intros Hts EL Hl Hc Q2 Q3 Q4.
   assert (TJ : is_tsjs f = true) by (unfold is_tsjs, is_lang; rewrite EL; destruct Hts as [-> | ->]; reflexivity).
   unfold ts_report. rewrite filter_id.
-  2:{ intros c Hin. unfold ts_found, ts_class_node_type.
-      destruct (c_kind c) eqn:EK; cbn; try reflexivity;
-        (destruct Q4 as [-> | Q4]; [reflexivity|]; unfold free_ts_abstract in Q4; rewrite TJ in Q4; cbn [negb orb] in Q4;
-         pose proof (forallb_In _ _ _ Q4 Hin) as E; cbn beta in E; rewrite EK in E; discriminate). }
+  2:{ intros c Hin. unfold ts_found, ts_class_node_types. destruct (c_kind c); reflexivity. }
   apply flat_map_ext_in'. intros c Hin. pose proof (forallb_In _ _ _ Hc Hin) as Hg.
-  unfold cls_good in Hg. apply andb_prop in Hg. destruct Hg as [Hg Hm]. apply andb_prop in Hg. destruct Hg as [_ Hs].
+  unfold cls_good in Hg. apply andb_prop in Hg. destruct Hg as [Hg Hm]. apply andb_prop in Hg. destruct Hg as [Hg _].
+  apply andb_prop in Hg. destruct Hg as [_ Hs].
   unfold ts_class_rep, spec_class_rep. change (ts_class_name c) with (c_name c).
   rewrite class_rep_ts, has_kw_ts, EL. cbn [cf_mm cf_ml cf_check cf_keywords spec_conf].
   destruct (span_good_inv _ _ _ Hs) as (H1 & _ & _). replace (c_line c - 1 + 1) with (c_line c) by lia.
@@ -78,10 +71,9 @@ Proof.
       pose proof (forallb_In _ _ _ (forallb_In _ _ _ Q2 Hin) Hm') as E. now apply negb_true_iff in E.
     - destruct Q3 as [Q3 | Q3]; [now left | right]. unfold free_ts_accessor in Q3. rewrite TJ in Q3. cbn [negb orb] in Q3.
       pose proof (forallb_In _ _ _ (forallb_In _ _ _ Q3 Hin) Hm') as E. now apply negb_true_iff in E. }
-  assert (E2 : ts_count_loc q (f_lines f) c = spec_loc (f_lines f) (c_line c) (c_len c)).
-  { apply (ts_count_loc_spec (f_lines f) q c Hs).
-    destruct Q1 as [Q1 | Q1]; [now left | right]. unfold free_ts_loc in Q1. rewrite TJ in Q1. cbn [negb orb] in Q1.
-    exact (forallb_In _ _ _ Q1 Hin). }
+  assert (E2 : ts_count_loc q (f_lines f) c = spec_loc (f_lines f) (c_line c - c_deco c) (c_len c)).
+  { apply (ts_count_loc_spec (f_lines f) l Hl q c Hts Hs).
+    destruct Q4 as [Q4 | Q4]; [now left | right]. unfold free_ts_block in Q4. rewrite TJ in Q4. exact Q4. }
   now rewrite E1, E2.
 Qed.
 
@@ -90,13 +82,11 @@ Lemma rs_report_spec q s f :
   f_lang f = Rs -> forallb (line_good Rs) (f_lines f) = true ->
   forallb (struct_good (List.length (f_lines f))) (f_structs f) = true ->
   forallb (impl_good (List.length (f_lines f))) (f_impls f) = true ->
-  q_rs_trait_first_ident q = false \/ free_rs_trait f = true ->
-  q_rs_generic_impl_lost q = false \/ free_rs_generic f = true ->
   q_rs_name_collision q = false \/ free_rs_collision f = true ->
   q_rs_block_comment_counted q = false \/ free_rs_block f = true ->
   rs_report q (spec_conf s Rs) f = flat_map (spec_struct_rep s f) (f_structs f).
 Proof.
-  intros EL Hl Hst Him Q1 Q2 Q3 Q4.
+  intros EL Hl Hst Him Q3 Q4.
   assert (RL : is_lang Rs f = true) by (unfold is_lang; now rewrite EL).
   unfold rs_report. rewrite filter_const_true by reflexivity.
   apply flat_map_ext_in'. intros st Hin. pose proof (forallb_In _ _ _ Hst Hin) as Hg.
@@ -104,12 +94,8 @@ Proof.
   unfold rs_struct_rep, spec_struct_rep. rewrite (filter_const_true _ (f_impls f)) by reflexivity.
   assert (EF : filter (rs_assoc q st) (f_impls f) = filter (own_impl st) (f_impls f)).
   { apply filter_ext_in. intros i Hi. apply (rs_assoc_spec q (List.length (f_lines f)) st i (forallb_In _ _ _ Him Hi)).
-    - destruct Q1 as [Q1 | Q1]; [now left | right]. unfold free_rs_trait in Q1. rewrite RL in Q1. cbn [negb orb] in Q1.
-      exact (forallb_In _ _ _ Q1 Hi).
-    - destruct Q2 as [Q2 | Q2]; [now left | right]. unfold free_rs_generic in Q2. rewrite RL in Q2. cbn [negb orb] in Q2.
-      pose proof (forallb_In _ _ _ Q2 Hi) as E. now apply negb_true_iff in E.
-    - destruct Q3 as [Q3 | Q3]; [now left | right]. unfold free_rs_collision in Q3. rewrite RL in Q3. cbn [negb orb] in Q3.
-      exact (forallb_In _ _ _ (forallb_In _ _ _ Q3 Hin) Hi). }
+    destruct Q3 as [Q3 | Q3]; [now left | right]. unfold free_rs_collision in Q3. rewrite RL in Q3. cbn [negb orb] in Q3.
+    exact (forallb_In _ _ _ (forallb_In _ _ _ Q3 Hin) Hi). }
   rewrite EF. change (rs_struct_name st) with (s_name st).
   rewrite class_rep_rs, has_kw_rs, EL. cbn [cf_mm cf_ml cf_check cf_keywords spec_conf].
   destruct (span_good_inv _ _ _ Hs) as (H1 & _ & _). replace (s_line st - 1 + 1) with (s_line st) by lia.
@@ -153,7 +139,7 @@ Proof.
 Qed.
 
 Lemma flags_off_ok q f : flags_off q -> quirks_ok q f = true.
-Proof. intros (H1 & H2 & H3 & H4 & H5 & H6 & H7 & H8 & H9). unfold quirks_ok. now rewrite H1, H2, H3, H4, H5, H6, H7, H8, H9. Qed.
+Proof. intros (H1 & H2 & H3 & H4 & H5 & H6). unfold quirks_ok. now rewrite H1, H2, H3, H4, H5, H6. Qed.
 
 Lemma defect_free_ok q f : defect_free f = true -> quirks_ok q f = true.
 Proof.
